@@ -85,6 +85,18 @@ BLOCKS = {
                              "ph": r.randint(-1, 1) if ints else r.randint(-64, 64) / 64.0},
         make=lambda a: lk.BeamSplitter(a["ratio"], t=a["t"], phase=a["ph"]), kw=lambda a: {},
         term=lambda a: "BeamSplitterT %s %s %s" % (rlit(a["ratio"]), rlit(a["t"]), rlit(a["ph"])), n=4),
+    "UserWaveguide": dict(     # two modes whose settings differ (also in their KEY SETS); index = base + pol / 4
+        gen=lambda r, ints: {"L": r.randint(1, 100) if ints else r.randint(1, 6400) / 64.0,
+                             "base": r.choice([1, 2]) if ints else 1 + r.randint(0, 128) / 64.0,
+                             "wl": r.randint(32, 128) / 64.0,
+                             "extras": r.choice([[{"pol": 1}, {}], [{}, {"pol": 1}], [{"pol": 0}, {"pol": 1}],
+                                                 [{"pol": 2}, {"pol": 1}], [{"pol": 1, "x": 3}, {"x": 1}]])},
+        make=lambda a: lk.UserWaveguide(a["L"], (lambda wl, base, pol=0, **kw: base + pol / 4.0),
+                                        param_dic={"base": a["base"]},
+                                        allowedmodes={"m0": dict(a["extras"][0]), "m1": dict(a["extras"][1])}),
+        kw=lambda a: {"wl": a["wl"]},
+        term=lambda a: "UserWaveguide2 %s %s %s %s" % (rlit(a["L"]), rlit(a["base"] + a["extras"][0].get("pol", 0) / 4.0),
+                                                      rlit(a["base"] + a["extras"][1].get("pol", 0) / 4.0), rlit(a["wl"])), n=4),
     "Splitter1x2": dict(
         gen=lambda r, ints: {}, make=lambda a: lk.Splitter1x2(), kw=lambda a: {},
         term=lambda a: "Splitter1x2", n=3),
@@ -96,7 +108,7 @@ BLOCKS = {
 }
 
 UNFOLD = ("cbv [Waveguide PhaseShifter TH_PhaseShifter Attenuator LinearAttenuator PerfectMirror PushPull "
-          "Mirror BeamSplitter BeamSplitterT Splitter1x2 PolRot twoport wg_t att_amp bs_t bs_tt bs_c cscale cmulc cis C0 fst snd]")
+          "Mirror BeamSplitter BeamSplitterT UserWaveguide2 Splitter1x2 PolRot twoport wg_t att_amp bs_t bs_tt bs_c cscale cmulc cis C0 fst snd]")
 
 SAMPLE_ASSUMPTIONS = {}
 
